@@ -61,6 +61,16 @@ Definition alias_table_ok (p prob : vec) (alias : list nat) : bool :=
   forallb (fun a => (a <? length p)%nat) alias &&
   forallb (fun i => Qeq_bool (alias_mass prob alias i) (nthq p i)) (seq 0 (length p)).
 
+(* the checker for vectors whose sum is only within tolerance of one: masses within |sum p - 1| of
+   p_i, and an index of probability zero has mass zero (it is never returned) *)
+Definition alias_table_slack_ok (p prob : vec) (alias : list nat) : bool :=
+  let d := qabs (qsum p - 1) in
+  (length prob =? length p)%nat && (length alias =? length p)%nat &&
+  forallb (fun a => (a <? length p)%nat) alias &&
+  forallb (fun i => let mi := alias_mass prob alias i in
+             Qle_bool (- d) (mi - nthq p i) && Qle_bool (mi - nthq p i) d &&
+             (negb (Qeq_bool (nthq p i) 0) || Qeq_bool mi 0)) (seq 0 (length p)).
+
 (* ---- sortedness for the random simplex point *)
 Inductive ascending : vec -> Prop :=
 | asc_nil : ascending []
